@@ -239,7 +239,7 @@ def check_colours(ctx, grp, key, col, plain):
 
 def run(ctx):
     g = G(ctx.seed)
-    groups = gen(g, 40 if ctx.tier == 'quick' else 700)
+    groups = gen(g, 160 if ctx.tier == 'quick' else 700)
     cases = [c for grp, _, _ in groups for c in grp.values()]
     impl, model = run_apps(ctx, cases)
     judge(ctx, groups, impl)
